@@ -714,7 +714,19 @@ fn run_program(ctx: &mut Ctx, rng: &mut Rng, index: u64) {
             let text = random_string(rng, 10, &[]);
             let dl = rng.range(0, 20_000);
             let data = crate::respgen::payload_bytes(rng, dl);
-            let mp = attohttpc::MultipartBuilder::new().with_text("field", &text).with_file(attohttpc::MultipartFile::new("file", &data)).build().expect("multipart build");
+            let text2 = random_string(rng, 6, &[]);
+            let mut mb = attohttpc::MultipartBuilder::new();
+            let shape = rng.below(4);
+            if shape != 3 {
+                mb = mb.with_text("field", &text);
+            }
+            if shape >= 1 {
+                mb = mb.with_text("second", &text2).with_text("third", "3");
+            }
+            if shape == 0 || shape == 3 {
+                mb = mb.with_file(attohttpc::MultipartFile::new("file", &data));
+            }
+            let mp = mb.build().expect("multipart build");
             m.body_kind = "multipart";
             m.framing = Some("chunked");
             ctx.count("body_multipart", 1);
